@@ -1177,6 +1177,15 @@ def make_fault(kind: str, model, rng_id: int) -> dict:
     }
     if kind == "raise":
         return {"raise": {"isExc": True, "id": rng_id}}
+    if kind.startswith("raisev:"):  # an exception VALUE (lib_valueprop.EXC_VALUES) of the class `rng_id`
+        return {"raise": {"isExc": True, "id": rng_id, "val": int(kind.split(":")[1])}}
+    if kind.startswith("arr:"):  # "arr:<dt>:<d0>x<d1>..." - an explicit array, right dtype / chosen extents (round 10b)
+        _, dt, sh = kind.split(":")
+        shape = [int(x) for x in sh.split("x")] if sh else []
+        n = 1
+        for d in shape:
+            n *= d
+        return {"names": names, "vals": [A(dt, shape, 3 if n else 0)] * len(names)}
     if kind == "unknown-name":
         return {"names": ["zzz"] + names, "vals": [A("i64", [2], 1)] * (len(names) + 1)}
     if kind == "truncated":
